@@ -44,7 +44,15 @@ MANIFEST = {
 
 HEADER = ('From Coq Require Import List Bool Arith.\n'
           'From FpyV Require Import Lang.Defined Cases.C15Cases.\n'
-          'Import ListNotations.\n')
+          'Import ListNotations.\n'
+          '(* abbreviations of the program printer (harness/props/c15.py, Render) *)\n'
+          'Definition cnd (p : name) : expr := EOp (EVar p) EConst.            (* p > 0 *)\n'
+          'Definition If1 p b := SIf1 (cnd p) b.\n'
+          'Definition IfE p a b := SIf (cnd p) a b.\n'
+          'Definition Wh p b := SWhile (cnd p) (SAssign [p] (EOp (EVar p) EConst) :: b).   (* while p > 0: p = p - 1; b *)\n'
+          'Definition Fo t p b := SFor [t] (EVar p) b.\n'
+          'Definition Wi t b := SWith t EConst b.\n'
+          'ATOMDEFS')
 
 KEY = 'for_target_defined_after_loop'
 
@@ -53,7 +61,7 @@ FIRST_PARAM = 10           # b1.. / l1.. / n1.. get ids from here
 
 FULL = ['u=0', 'v=0', 'u=v', 'v=u', 'u=u', 'uv=01', 'uv=vu', 'ret u', 'ret v', 'ret 0', 'pass',
         'c_uvv', 'c_vuu', 'c_uuv', 'c_vvu']
-SMALL = ['u=0', 'v=u', 'u=v', 'ret u', 'ret v']
+SMALL = ['u=0', 'v=u', 'ret u', 'ret v']
 NAME = {U: 'u', V: 'v'}
 
 # atom -> (python text, Coq statement, uses the list parameter p)
@@ -74,6 +82,8 @@ ATOMS = {
     'c_uuv': ('u = sum([v for u in p])', f'SAssign [{U}] (EComp [{U}] (EVar {P}) (EVar {V}))', True),
     'c_vvu': ('v = sum([u for v in p])', f'SAssign [{V}] (EComp [{V}] (EVar {P}) (EVar {U}))', True),
 }
+ATOM_ID = {a: f'a{n}' for n, a in enumerate(ATOMS)}
+HEADER = HEADER.replace('ATOMDEFS', ''.join(f'Definition {ATOM_ID[a]} := {ATOMS[a][1]}.\n' for a in ATOMS))
 SWAP_ATOM = {'u=0': 'v=0', 'v=0': 'u=0', 'u=v': 'v=u', 'v=u': 'u=v', 'ret u': 'ret v', 'ret v': 'ret u',
              'c_uvv': 'c_vuu', 'c_vuu': 'c_uvv', 'c_uuv': 'c_vvu', 'c_vvu': 'c_uuv', 'ret 0': 'ret 0', 'pass': 'pass'}
 
@@ -173,38 +183,37 @@ class Render:
                 text, term, uses = ATOMS[s[1]]
                 self.uses_p |= uses
                 lines.append(pad + text)
-                terms.append(term)
+                terms.append(ATOM_ID[s[1]])
             elif s[0] == 'if1':
                 nm, pid = self.param('if')
                 bl, bt = self.block(s[1], ind + 1)
                 lines += [f'{pad}if {nm} > 0:'] + bl
-                terms.append(f'SIf1 (EOp (EVar {pid}) EConst) {bt}')
+                terms.append(f'If1 {pid} {bt}')
             elif s[0] == 'if':
                 nm, pid = self.param('if')
                 al, at = self.block(s[1], ind + 1)
                 bl, bt = self.block(s[2], ind + 1)
                 lines += [f'{pad}if {nm} > 0:'] + al + [f'{pad}else:'] + bl
-                terms.append(f'SIf (EOp (EVar {pid}) EConst) {at} {bt}')
+                terms.append(f'IfE {pid} {at} {bt}')
             elif s[0] == 'while':
                 nm, pid = self.param('while')
                 bl, bt = self.block(s[1], ind + 1)
                 # the counter is decremented first, so the body may end in a return
                 lines += [f'{pad}while {nm} > 0:', f'{pad}    {nm} = {nm} - 1'] + bl
-                dec = f'SAssign [{pid}] (EOp (EVar {pid}) EConst)'
-                terms.append(f'SWhile (EOp (EVar {pid}) EConst) ({dec} :: {bt})')
+                terms.append(f'Wh {pid} {bt}')
             elif s[0] == 'for':
                 nm, pid = self.param('for')
                 bl, bt = self.block(s[2], ind + 1)
                 lines += [f'{pad}for {NAME[s[1]]} in {nm}:'] + bl
-                terms.append(f'SFor [{s[1]}] (EVar {pid}) {bt}')
+                terms.append(f'Fo {s[1]} {pid} {bt}')
             else:
                 bl, bt = self.block(s[2], ind + 1)
                 if s[1] is None:
                     lines += [f'{pad}with fp.REAL:'] + bl
-                    terms.append(f'SWith None EConst {bt}')
+                    terms.append(f'Wi None {bt}')
                 else:
                     lines += [f'{pad}with fp.REAL as {NAME[s[1]]}:'] + bl
-                    terms.append(f'SWith (Some {s[1]}) EConst {bt}')
+                    terms.append(f'Wi (Some {s[1]}) {bt}')
         return lines, '[' + '; '.join(terms) + ']'
 
 
@@ -281,6 +290,45 @@ def work(args):
         return ('crash', traceback.format_exc())
 
 
+def coq_eval(ck, cases, check_fn, tag, shard=1200, block=100, jobs=8, timeout=1500):
+    """`check_fn case = true` decided in Coq for every case; returns the failing
+    indices.  Like Check.coq_eval_mismatches, but the case list of a shard is
+    split into many small definitions (elaborating one long list literal is
+    superlinear in its length)."""
+    from ..common import COQ, sh
+    names = []
+    for si in range(0, len(cases), shard):
+        part = cases[si:si + shard]
+        name = f'{tag}_{si // shard:04d}'
+        text = [HEADER]
+        defs = []
+        for bi in range(0, len(part), block):
+            d = f'blk{bi // block}'
+            defs.append(d)
+            body = ';\n'.join(f'({si + bi + j}, {c})' for j, c in enumerate(part[bi:bi + block]))
+            text.append(f'Definition {d} : list (nat * case15) := [\n{body}\n].')
+        text.append('Definition bad := map fst (filter (fun ic => negb (' + check_fn + ' (snd ic))) (' + ' ++ '.join(defs) + ')).')
+        text.append('Eval vm_compute in bad.')
+        (ck.dir / f'{name}.v').write_text('\n'.join(text) + '\n')
+        names.append(name)
+    if not names:
+        return [], None
+    cmd = (f"xargs -P{jobs} -I{{}} sh -c 'timeout {timeout} coqc -Q {COQ} FpyV -Q . Dyn {{}}.v > {{}}.out 2>&1 || echo FAIL >> {{}}.out'")
+    sh(cmd, cwd=ck.dir, input='\n'.join(names), timeout=timeout * (len(names) // jobs + 1) + 60)
+    bad, err = [], None
+    for name in names:
+        out = (ck.dir / f'{name}.out').read_text()
+        m = re.search(r'=\s*\[(.*?)\]\s*:\s*list nat', out, re.S)
+        if 'FAIL' in out or not m:
+            err = (err or '') + f'{name}: {out[-500:]}\n'
+            continue
+        body = m.group(1).strip()
+        if body:
+            bad += [int(x.strip()) for x in body.split(';')]
+    ck.checker_cmds.append(f'coqc -Q coq FpyV build/{ck.pid}/{tag}_*.v  # {check_fn} on {len(cases)} cases')
+    return sorted(bad), err
+
+
 # ---------------------------------------------------------------- the check
 def guide_says(ck):
     """The sentences of docs/USAGE.md the `guide_rules` theorems formalise."""
@@ -336,7 +384,7 @@ def run(ck):
     full_n = 4 if thorough else 3
     for n in range(1, full_n + 1):
         add_all(n, FULL, [None, U, V], True)
-    add_all(full_n + 1, SMALL, [U], False)
+    add_all(full_n + 1, SMALL, [V], False)
     ck.log(f'{len(progs)} program texts (statements <= {full_n} over {len(FULL)} atoms and all compounds, '
            f'{full_n + 1} statements over {len(SMALL)} atoms; depth <= 3)')
 
@@ -388,13 +436,13 @@ def run(ck):
                '(each executed on every combination of branch outcomes and trip counts 0/1/2)')
     for c in cases[:3] + cases[len(cases) // 2:len(cases) // 2 + 3]:
         ck.sample(c)
-    bad, err = ck.coq_eval_mismatches(HEADER, 'case15', cases, 'check15_strict', chunk=400, tag='strict')
+    bad, err = coq_eval(ck, cases, 'check15_strict', 'strict')
     if err:
         ck.broken.append('correspondence evaluation failed: ' + err[:500])
     ck.log(f'model evaluated {len(cases)} verdicts; {len(bad)} to classify')
     sub = [cases[j] for j in bad]
-    coded_bad, err1 = ck.coq_eval_mismatches(HEADER, 'case15', sub, 'check15_coded', chunk=400, tag='coded')
-    fixed_bad, err2 = ck.coq_eval_mismatches(HEADER, 'case15', sub, 'check15_fixed', chunk=400, tag='fixed')
+    coded_bad, err1 = coq_eval(ck, sub, 'check15_coded', 'coded')
+    fixed_bad, err2 = coq_eval(ck, sub, 'check15_fixed', 'fixed')
     if err1 or err2:
         ck.broken.append('correspondence evaluation failed: ' + (err1 or err2)[:500])
     coded_bad, fixed_bad = set(coded_bad), set(fixed_bad)
